@@ -9,6 +9,7 @@ struct Rewriter {
   original_functions: HashMap<mir::FunctionName, hir::Function>,
   used_string_names: HashSet<PStr>,
   specialized_type_definition_names: HashSet<mir::TypeNameId>,
+  enum_type_definition_names_in_progress: HashSet<mir::TypeNameId>,
   specialized_function_names: HashSet<mir::FunctionName>,
   specialized_closure_definitions: Vec<mir::ClosureTypeDefinition>,
   specialized_type_definitions: HashMap<mir::TypeNameId, mir::TypeDefinition>,
@@ -578,6 +579,7 @@ impl Rewriter {
               .collect_vec(),
           ),
           hir::TypeDefinitionMappings::Enum(hir_variants) => {
+            self.enum_type_definition_names_in_progress.insert(mir_type_name);
             let mut mir_variants = Vec::with_capacity(hir_variants.len());
             let mut permit_unboxed_optimization = true;
             let mut already_unused_boxed_optimization = None;
@@ -608,6 +610,7 @@ impl Rewriter {
                 permit_unboxed_optimization = false;
               }
             }
+            self.enum_type_definition_names_in_progress.remove(&mir_type_name);
             mir::TypeDefinitionMappings::Enum(mir_variants)
           }
         };
@@ -637,8 +640,11 @@ impl Rewriter {
       mir::Type::Int32 | mir::Type::Int31 => false,
       mir::Type::Id(type_id) => {
         let Some(type_def) = self.specialized_type_definitions.get(type_id) else {
-          // Recursive type currently being processed - must be heap-allocated (pointer).
-          return self.specialized_type_definition_names.contains(type_id);
+          // A closure type, or a struct currently being processed, is always a pointer.
+          // An enum currently being processed (a recursive type) may still end up with int31 or
+          // unboxed variants, so it cannot be assumed to be a pointer.
+          return self.specialized_type_definition_names.contains(type_id)
+            && !self.enum_type_definition_names_in_progress.contains(type_id);
         };
         match &type_def.mappings {
           // Structs are always pointers.
@@ -706,6 +712,7 @@ pub(super) fn perform_generics_specialization(
       .collect(),
     used_string_names: HashSet::new(),
     specialized_type_definition_names: HashSet::new(),
+    enum_type_definition_names_in_progress: HashSet::new(),
     specialized_function_names: HashSet::new(),
     specialized_closure_definitions: Vec::new(),
     specialized_type_definitions: HashMap::new(),
